@@ -204,3 +204,69 @@ have -> : j < n by have := bd 0 (ltn0Sn k); rewrite subn0.
 rewrite /= IH //= => i ik; have := bd i.+1; rewrite ltnS => /(_ ik) /=.
 by rewrite -subn1 -subnDA add1n.
 Qed.
+
+(* partial shuffles (permute_incidence_fixed_sums draws two rows): the picks are distinct members of the list *)
+Section Prefix.
+Variable T : eqType.
+Variable pick : T -> seq T -> nat -> T * seq T.
+Hypothesis pick_perm : forall x0 l j, j < size l -> perm_eq ((pick x0 l j).1 :: (pick x0 l j).2) l.
+
+Lemma shuf_prefix_perm : forall ds l, (forall i, i < size ds -> nth 0 ds i < size l - i) -> size ds <= size l ->
+  exists rest, perm_eq (shuf pick l ds ++ rest) l.
+Proof.
+elim=> [|d ds IH] l bd sz; first by exists l.
+case: l bd sz => // x xs bd sz /=.
+have dlt : d < size (x :: xs) by have := bd 0 (ltn0Sn _); rewrite subn0.
+have pp := pick_perm x dlt.
+have szr : size (pick x (x :: xs) d).2 = size xs by have := perm_size pp => /= -[].
+have bd' : forall i, i < size ds -> nth 0 ds i < size (pick x (x :: xs) d).2 - i.
+  move=> i ilt; have := bd i.+1; rewrite /= ltnS => /(_ ilt); by rewrite szr subSS.
+have sz' : size ds <= size (pick x (x :: xs) d).2 by rewrite szr.
+have [rest pr] := IH _ bd' sz'.
+exists rest; apply: perm_trans pp; by rewrite /= perm_cons.
+Qed.
+End Prefix.
+
+Lemma two_rows_distinct n t ds t' s0 s1 :
+  draws_from n 2 t = Ok (ds, t') -> shuf (@last_pick nat) (iota 0 n) ds = [:: s0; s1] ->
+  [/\ s0 != s1, s0 < n & s1 < n].
+Proof.
+move=> /draws_fromP [sz _ bd] E.
+have bd1 : forall i, i < size ds -> nth 0 ds i < size (iota 0 n) - i.
+  by move=> i ilt; rewrite size_iota; apply: bd; rewrite -sz.
+have sz1 : size ds <= size (iota 0 n).
+  rewrite size_iota sz; have b0 := bd 0 isT; have b1 := bd 1 isT.
+  by case: n b0 b1 {bd bd1 E} => [|[|n]] //=; rewrite ?subn0 ?subn1.
+have [rest pr] := @shuf_prefix_perm nat_eqType (@last_pick nat) (@last_pick_perm _) ds (iota 0 n) bd1 sz1.
+move: pr; rewrite E /= => pr.
+have U : uniq [:: s0, s1 & rest] by rewrite (perm_uniq pr) iota_uniq.
+have m0 : s0 \in iota 0 n by rewrite -(perm_mem pr) mem_head.
+have m1 : s1 \in iota 0 n by rewrite -(perm_mem pr) !inE eqxx orbT.
+move: U m0 m1; rewrite /= !inE negb_or mem_iota add0n mem_iota add0n => /andP [/andP [ne _] _] /= a b.
+by split.
+Qed.
+
+(* stdlib-flavoured restatements used by Proofs/IncidenceProofs.v *)
+Lemma seq_iota' a n : List.seq a n = iota a n.
+Proof. by elim: n a => [|n IH] a //=; rewrite IH. Qed.
+
+Lemma two_rows_distinct_std n t ds t' s0 s1 :
+  draws_from n 2 t = Ok (ds, t') -> shuf (@last_pick nat) (List.seq 0 n) ds = (s0 :: s1 :: nil)%list ->
+  s0 <> s1 /\ (s0 < n)%coq_nat /\ (s1 < n)%coq_nat.
+Proof.
+rewrite seq_iota' => H E; have [ne a b] := two_rows_distinct H E.
+split; first by apply/eqP.
+by split; apply/ltP.
+Qed.
+
+Lemma mem_In (z : nat) (s : seq nat) : z \in s -> List.In z s.
+Proof. by elim: s => // c s IH; rewrite inE => /orP [/eqP ->|/IH H]; [left|right]. Qed.
+
+Lemma choice_in (x0 : nat) (l : seq nat) t y t' : choice x0 l t = Ok (y, t') -> List.In y l.
+Proof.
+rewrite /choice; case: l => // a l.
+case E: (draw _ t) => [[b t1]|] //= [<- _].
+have blt : b < size (a :: l).
+  by move: E; rewrite /draw; case: t => // c t; case: ifP => // clt [<- _].
+by apply: (@mem_In _ (a :: l)); rewrite mem_nth.
+Qed.
